@@ -136,6 +136,8 @@ func b(x bool) string {
 }
 
 type ruleAcc struct {
+	nclauses []string // nftables text level (Nft.nclause), nft rules only
+	nstmt    string
 	matches  []string
 	action   string
 	l4proto  int // positive protocol match seen in this rule, -1 none
@@ -418,14 +420,38 @@ func parseIptables(line string, ver int, sets map[string]int) (string, error) {
 
 // ------------------------------------------------------------------ nftables
 
-func parseNft(line string, ver int, sets map[string]int) (string, error) {
+// parseNft returns the rule both in the abstract Ipt syntax and, clause by clause, in the nftables text syntax
+// of coq/theories/C08/Nft.v.  The second form is a pure tokenisation: implicit protocol / family dependencies
+// of the clauses are NOT interpreted here (Nft.nrule_wf and Nft.nft_run do that inside Coq).
+func parseNft(line string, ver int, sets map[string]int) (string, string, error) {
+	ipt, nft, err := parseNft0(line, ver, sets)
+	return ipt, nft, err
+}
+
+func (a *ruleAcc) nftTerm() string {
+	st := a.nstmt
+	if st == "" {
+		st = "SNone"
+	}
+	return fmt.Sprintf("{| n_clauses := [%s]; n_stmt := %s |}", strings.Join(a.nclauses, "; "), st)
+}
+
+func famOf(w string) string {
+	if w == "ip6" {
+		return "V6"
+	}
+	return "V4"
+}
+
+func parseNft0(line string, ver int, sets map[string]int) (string, string, error) {
 	a := &ruleAcc{l4proto: -1}
 	if line == "continue" {
-		return a.finish(ver)
+		s, err := a.finish(ver)
+		return s, a.nftTerm(), err
 	}
 	tk, err := tokenize(line)
 	if err != nil {
-		return "", err
+		return "", "", err
 	}
 	t := &toks{t: tk}
 	fam := "ip"
@@ -458,39 +484,39 @@ func parseNft(line string, ver int, sets map[string]int) (string, error) {
 				ng := negOp()
 				n, err := parseProto(t.next())
 				if err != nil {
-					return "", err
+					return "", "", err
 				}
 				if !ng {
 					a.l4proto = n
 				}
 				a.matches = append(a.matches, fmt.Sprintf("MProto %s %d", b(ng), n))
+				a.nclauses = append(a.nclauses, fmt.Sprintf("NL4Proto %s %d", b(ng), n))
 			case "mark":
 				if err := t.expect("&"); err != nil {
-					return "", err
+					return "", "", err
 				}
 				mk, err := parseUint32(t.next())
 				if err != nil {
-					return "", err
+					return "", "", err
 				}
 				op := t.next()
 				if op != "==" && op != "!=" {
-					return "", fmt.Errorf("bad mark operator %q", op)
+					return "", "", fmt.Errorf("bad mark operator %q", op)
 				}
 				v, err := parseUint32(t.next())
 				if err != nil {
-					return "", err
+					return "", "", err
 				}
 				a.matches = append(a.matches, fmt.Sprintf("MMark %s %d %d", b(op == "!="), v, mk))
+				a.nclauses = append(a.nclauses, fmt.Sprintf("NMark %d %s %d", mk, b(op == "!="), v))
 			default:
-				return "", fmt.Errorf("unknown meta key %q", f)
+				return "", "", fmt.Errorf("unknown meta key %q", f)
 			}
 		case "ip", "ip6":
-			if w != fam {
-				return "", fmt.Errorf("%s match in an IPv%d rule", w, ver)
-			}
+			_ = fam // a family keyword that does not fit the table is judged in Coq (Nft.nrule_wf)
 			dir := t.next()
 			if dir != "saddr" && dir != "daddr" {
-				return "", fmt.Errorf("unknown %s field %q", w, dir)
+				return "", "", fmt.Errorf("unknown %s field %q", w, dir)
 			}
 			src := dir == "saddr"
 			if t.peek() == "." {
@@ -498,111 +524,112 @@ func parseNft(line string, ver int, sets map[string]int) (string, error) {
 				want := []string{".", "meta", "l4proto", ".", "th", map[bool]string{true: "sport", false: "dport"}[src]}
 				for _, x := range want {
 					if err := t.expect(x); err != nil {
-						return "", err
+						return "", "", err
 					}
 				}
 				ng := negOp()
 				id, err := setRef()
 				if err != nil {
-					return "", err
+					return "", "", err
 				}
 				k := map[bool]string{true: "MSrcIpPortSet", false: "MDstIpPortSet"}[src]
 				a.matches = append(a.matches, fmt.Sprintf("%s %s %d", k, b(ng), id))
+				a.nclauses = append(a.nclauses, fmt.Sprintf("NAddrPortSet %s %s %s %d", famOf(w), b(src), b(ng), id))
 				break
 			}
 			ng := negOp()
 			if strings.HasPrefix(t.peek(), "@") {
 				id, err := setRef()
 				if err != nil {
-					return "", err
+					return "", "", err
 				}
 				k := map[bool]string{true: "MSrcIpSet", false: "MDstIpSet"}[src]
 				a.matches = append(a.matches, fmt.Sprintf("%s %s %d", k, b(ng), id))
+				a.nclauses = append(a.nclauses, fmt.Sprintf("NAddrSet %s %s %s %d", famOf(w), b(src), b(ng), id))
 			} else {
 				c, err := parseCIDRText(t.next(), ver)
 				if err != nil {
-					return "", err
+					return "", "", err
 				}
 				k := map[bool]string{true: "MSrcNet", false: "MDstNet"}[src]
 				a.matches = append(a.matches, fmt.Sprintf("%s %s %s", k, b(ng), c))
+				a.nclauses = append(a.nclauses, fmt.Sprintf("NAddr %s %s %s %s", famOf(w), b(src), b(ng), c))
 			}
 		case "tcp", "udp", "sctp":
 			dir := t.next()
 			if dir != "sport" && dir != "dport" {
-				return "", fmt.Errorf("unknown %s field %q", w, dir)
-			}
-			if a.l4proto != protoNumbers[w] {
-				return "", fmt.Errorf("%s %s without meta l4proto %s in the same rule", w, dir, w)
+				return "", "", fmt.Errorf("unknown %s field %q", w, dir)
 			}
 			ng := negOp()
 			if err := t.expect("{"); err != nil {
-				return "", err
+				return "", "", err
 			}
 			var parts []string
 			for t.peek() != "}" {
 				if t.done() {
-					return "", fmt.Errorf("unterminated port set")
+					return "", "", fmt.Errorf("unterminated port set")
 				}
 				parts = append(parts, t.next())
 			}
 			t.next()
 			pl, err := parsePortList(strings.Join(parts, ""), "-")
 			if err != nil {
-				return "", err
+				return "", "", err
 			}
 			a.needPort = true
 			k := map[bool]string{true: "MSrcPorts", false: "MDstPorts"}[dir == "sport"]
 			a.matches = append(a.matches, fmt.Sprintf("%s %s %s", k, b(ng), pl))
+			a.nclauses = append(a.nclauses, fmt.Sprintf("NPorts %d %s %s %s", protoNumbers[w], b(dir == "sport"), b(ng), pl))
 		case "icmp", "icmpv6":
-			if (w == "icmpv6") != (ver == 6) {
-				return "", fmt.Errorf("%s match in an IPv%d rule", w, ver)
-			}
 			a.needICMP = 1
 			if w == "icmpv6" {
 				a.needICMP = 58
 			}
 			if err := t.expect("type"); err != nil {
-				return "", err
+				return "", "", err
 			}
 			ng := negOp()
 			ty, err := strconv.Atoi(t.next())
 			if err != nil || ty < 0 || ty > 255 {
-				return "", fmt.Errorf("bad icmp type")
+				return "", "", fmt.Errorf("bad icmp type")
 			}
 			a.matches = append(a.matches, fmt.Sprintf("MIcmpType %s %d", b(ng), ty))
+			a.nclauses = append(a.nclauses, fmt.Sprintf("NIcmpType %s %s %d", b(w == "icmpv6"), b(ng), ty))
 			if t.peek() == "code" {
 				t.next()
 				ng2 := negOp()
 				c, err := strconv.Atoi(t.next())
 				if err != nil || c < 0 || c > 255 {
-					return "", fmt.Errorf("bad icmp code")
+					return "", "", fmt.Errorf("bad icmp code")
 				}
 				a.matches = append(a.matches, fmt.Sprintf("MIcmpCode %s %d", b(ng2), c))
+				a.nclauses = append(a.nclauses, fmt.Sprintf("NIcmpCode %s %s %d", b(w == "icmpv6"), b(ng2), c))
 			}
 		case "limit":
 			if err := t.expect("rate"); err != nil {
-				return "", err
+				return "", "", err
 			}
 			t.next()
 			if t.peek() == "burst" {
 				t.next()
 				t.next()
 				if err := t.expect("packets"); err != nil {
-					return "", err
+					return "", "", err
 				}
 			}
 			a.matches = append(a.matches, "MOther 0")
+			a.nclauses = append(a.nclauses, "NLimit")
 		case "counter":
 			// the statement part
 			switch s := t.next(); s {
 			case "return":
-				a.action = "AReturn"
+				a.action, a.nstmt = "AReturn", "SReturn"
 			case "drop":
-				a.action = "ADrop"
+				a.action, a.nstmt = "ADrop", "SDrop"
 			case "accept":
-				a.action = "AAccept"
+				a.action, a.nstmt = "AAccept", "SAccept"
 			case "reject":
-				a.action = "AReject"
+				a.action, a.nstmt = "AReject", "SReject"
 				if t.peek() == "with" {
 					t.next()
 					for !t.done() {
@@ -612,69 +639,75 @@ func parseNft(line string, ver int, sets map[string]int) (string, error) {
 			case "meta":
 				for _, x := range []string{"mark", "set", "mark"} {
 					if err := t.expect(x); err != nil {
-						return "", err
+						return "", "", err
 					}
 				}
 				switch op := t.next(); op {
 				case "or":
 					x, err := parseUint32(t.next())
 					if err != nil {
-						return "", err
+						return "", "", err
 					}
 					a.action = markAction(^x, x)
+					a.nstmt = fmt.Sprintf("(SMarkOr %d)", x)
 				case "&":
 					and, err := parseUint32(t.next())
 					if err != nil {
-						return "", err
+						return "", "", err
 					}
 					xor := uint32(0)
+					a.nstmt = fmt.Sprintf("(SMarkAnd %d)", and)
 					if t.peek() == "^" {
 						t.next()
 						xor, err = parseUint32(t.next())
 						if err != nil {
-							return "", err
+							return "", "", err
 						}
+						a.nstmt = fmt.Sprintf("(SMarkAndXor %d %d)", and, xor)
 					}
 					a.action = markAction(and, xor)
 				default:
-					return "", fmt.Errorf("unknown mark expression %q", op)
+					return "", "", fmt.Errorf("unknown mark expression %q", op)
 				}
 			case "log":
 				if err := t.expect("prefix"); err != nil {
-					return "", err
+					return "", "", err
 				}
 				t.next()
 				switch t.peek() {
 				case "level":
 					t.next()
 					t.next()
-					a.action = "ALog"
+					a.action, a.nstmt = "ALog", "SLog"
 				case "snaplen":
 					t.next()
 					t.next()
 					if err := t.expect("group"); err != nil {
-						return "", err
+						return "", "", err
 					}
 					t.next()
-					a.action = "ANflog"
+					a.action, a.nstmt = "ANflog", "SNflog"
 				case "group":
 					t.next()
 					t.next()
-					a.action = "ANflog"
+					a.action, a.nstmt = "ANflog", "SNflog"
 				default:
-					return "", fmt.Errorf("unknown log statement")
+					return "", "", fmt.Errorf("unknown log statement")
 				}
 			case "":
-				return "", fmt.Errorf("counter without statement")
+				return "", "", fmt.Errorf("counter without statement")
 			default:
-				return "", fmt.Errorf("unknown statement %q", s)
+				return "", "", fmt.Errorf("unknown statement %q", s)
 			}
 			if !t.done() {
-				return "", fmt.Errorf("trailing tokens after statement: %q", t.peek())
+				return "", "", fmt.Errorf("trailing tokens after statement: %q", t.peek())
 			}
 		default:
-			return "", fmt.Errorf("unknown token %q", w)
+			return "", "", fmt.Errorf("unknown token %q", w)
 		}
 	}
-	return a.finish(ver)
+	// nft adds protocol dependencies itself: whether they are satisfied is judged in Coq (Nft.nrule_wf)
+	a.needPort, a.needICMP = false, 0
+	s, err := a.finish(ver)
+	return s, a.nftTerm(), err
 }
